@@ -162,6 +162,22 @@ REGISTRY = {
         'wall_timeout_s': {'quick': 400, 'thorough': 400},
         'witness_layout': 'kani::any() order: matches, old_len, new_len',
     },
+    'iterslices': {
+        'kind': 'kani', 'target': 'iter_slices',
+        'file': 'iterslices.rs', 'inject': 'src/types.rs', 'module': 'types::verif_harness_slices',
+        'harnesses': {'quick': ['iter_slices_exact', 'iter_slices_reach']},
+        'bound': {
+            'quick': 'COMPLETE (not bounded) for DiffOp::iter_slices: the real generic function instantiated at an abstract recording '
+                     'sequence (Index<Range<usize>> returns which side was indexed with which range); all four op kinds, ALL usize values of '
+                     'old_index / new_index / old_len / new_len with index + len not overflowing; next() called three times (the function is '
+                     'loop-free, no unwinding bound).  Clauses: Equal / Delete / Insert yield exactly one slice with their tag over exactly '
+                     'their index range on the proper side, Replace yields its Delete slice then its Insert slice, nothing follows; no panic/'
+                     'overflow.  NOT covered: Index<Range<usize>> impls that are not functions of (sequence, range).',
+        },
+        'harness_timeout_s': {'quick': 300, 'thorough': 300},
+        'wall_timeout_s': {'quick': 400, 'thorough': 400},
+        'witness_layout': 'kani::any() order: kind (0 Equal, 1 Delete, 2 Insert, 3 Replace), old_index, new_index, old_len, new_len',
+    },
     'r1equiv': {
         'kind': 'kani', 'target': 'rewrite rule R1 (tools/rewrites.py)',
         'project': 'r1equiv', 'module': 'verif_harness_r1',
